@@ -782,10 +782,16 @@ func (c *Client) logs(ctx context.Context, url string, filter *glf.Filter, bm bl
 	if err != nil {
 		return fmt.Errorf("making logs request: %w", err)
 	}
+	if len(resp) != 2 {
+		return fmt.Errorf("eth_getLogs: rpc response contains invalid data. requested 2 batch elements got: %d", len(resp))
+	}
 	var (
-		hresp = resp[0].(*headerResp)
-		lresp = resp[1].(*logResp)
+		hresp, hok = resp[0].(*headerResp)
+		lresp, lok = resp[1].(*logResp)
 	)
+	if !hok || !lok {
+		return fmt.Errorf("eth_getLogs: rpc response contains invalid data. unexpected batch elements")
+	}
 	switch {
 	case hresp.Error.Exists():
 		return fmt.Errorf("rpc=eth_getLogs/eth_getBlockByNumber %w", lresp.Error)
